@@ -1,7 +1,7 @@
 (* Info: ServiceInfo as a resolver (info.py): _process_record_threadsafe, _load_from_cache, and the
    async_request loop as a labelled transition system. Addresses are kept as packed bytes (4 = IPv4,
    16 = IPv6, anything else is rejected like ip_address() does); IPv6 scope ids are not modelled. *)
-From ZC Require Import Model.Base Model.PyRec Model.Dict Model.Re Model.Cache Model.Query Gen.Const Gen.DnsPure.
+From ZC Require Import Model.Base Model.PyRec Model.Dict Model.Re Model.Cache Model.Query Gen.Const Gen.Sites Gen.DnsPure.
 
 Record sinfo := {
   si_name : text; si_key : text;
@@ -110,20 +110,22 @@ Inductive rq_out :=
 | RReturn (now : Z) (result : bool).
 
 (* one turn of the `while not self._is_complete` loop at time now; [rnd] is the 20..120 draw *)
-Definition loop_turn (c : cache) (h : history) (r : req) (now rnd : Z) : req * history * list rq_out :=
+Definition loop_turn :=
+  Eval cbv beta iota delta [sop_apply site_info_deadline site_info_next_due site_info_delay_floor] in
+  fun (c : cache) (h : history) (r : req) (now rnd : Z) =>
   if is_complete (rq_info r) then
     ({| rq_info := rq_info r; rq_next := rq_next r; rq_last := rq_last r; rq_delay := rq_delay r; rq_first := rq_first r;
         rq_forced := rq_forced r; rq_done := Some true |}, h, [RReturn now true])
-  else if rq_last r <=? now then
+  else if sop_apply site_info_deadline (rq_last r) now then
     ({| rq_info := rq_info r; rq_next := rq_next r; rq_last := rq_last r; rq_delay := rq_delay r; rq_first := rq_first r;
         rq_forced := rq_forced r; rq_done := Some false |}, h, [RReturn now false])
-  else if rq_next r <=? now then
+  else if sop_apply site_info_next_due (rq_next r) now then
     let qu := if rq_first r then match rq_forced r with Some b => b | None => true end else false in
     let server := match si_server (rq_info r) with Some s => s | None => si_name (rq_info r) end in
     let '(m, h') := generate_request_query c h now (si_name (rq_info r)) server qu in
     let sends := match qm_qs m with [] => [] | _ => [RSend now qu m] end in
     ({| rq_info := rq_info r; rq_next := now + rq_delay r + rnd; rq_last := rq_last r;
-        rq_delay := if negb qu && (rq_delay r <? C_DUPLICATE_QUESTION_INTERVAL) then C_DUPLICATE_QUESTION_INTERVAL else rq_delay r;
+        rq_delay := if negb qu && sop_apply site_info_delay_floor (rq_delay r) C_DUPLICATE_QUESTION_INTERVAL then C_DUPLICATE_QUESTION_INTERVAL else rq_delay r;
         rq_first := false; rq_forced := rq_forced r; rq_done := None |}, h', sends)
   else (r, h, []).
 
